@@ -1347,6 +1347,8 @@ class TexArgs(list):
         BracketGroup('arg3')
         """
         arg = self.__coerce(arg)
+        # clamp the index the way list.insert does
+        i = max(len(self) + i, 0) if i < 0 else min(i, len(self))
 
         if isinstance(arg, (TexGroup, TexCmd)):
             super().insert(i, arg)
